@@ -4,7 +4,8 @@ import sys
 from vlib import c01lib, common
 
 GO = dict(module="core", pkg=c01lib.PKG, pkgname=c01lib.PKGNAME,
-          files=dict(c01lib.ENV_FILES, **{"zz_verif_c02_test.go": "c02/c02_test.go"}), run="TestVerifC02")
+          files=dict(c01lib.ENV_FILES, **{"zz_verif_c02_test.go": "c02/c02_test.go", "zz_verif_c02gate_test.go": "c02/c02gate_test.go"}),
+          run="TestVerifC02")
 PARAMS_NAME = c01lib.PARAMS_NAME
 HEADER = ("From Hy Require Import gen.ParamsC01 model.C01_ServerAuth corr.C01_Corr corr.C02_Corr.\n"
           "Local Open Scope N_scope.\n")
@@ -18,7 +19,12 @@ RULE = ("seeded generator of request sequences (25-30 requests per connection) o
         "auth requests), with Hysteria-Auth / Hysteria-CC-RX / Hysteria-Padding headers, accepted-looking and rejected credentials, "
         "CC-RX overflow / syntax errors; a third of the connections get accepted in the middle and go on sending near-misses and "
         "repeats; every connection ends with a raw 0x401 stream and a datagram. Every response is compared with the same handler on an "
-        "httptest recorder (status, headers minus Date/Content-Length, body). Non-trivial = a request that is not an accepted auth "
+        "httptest recorder (status, headers minus Date/Content-Length, body). Gate histories: an auth request (credentials that will be "
+        "accepted / rejected) is HELD inside Authenticator.Authenticate by a blocking fake; while it is undecided further auth requests "
+        "(junk, empty and good-looking credentials), requests that are not auth requests, raw 0x401 / other streams and datagrams arrive on "
+        "the same connection; then the harness releases the authenticator and goes on; verdict on the boundary log: no response other "
+        "than the masquerade's, no stream / datagram reply and no outbound call before an Authenticate call on that connection has "
+        "returned an accepting verdict. Non-trivial = a request that is not an accepted auth "
         "request and whose response was compared with the oracle; distinct = distinct (config, request) pairs.")
 ASSUMPTIONS = [
     "net/http and quic-go/http3 turn :method / :authority / :path into r.Method / r.Host / r.URL.Path as url.ParseRequestURI does (the harness "
@@ -67,10 +73,59 @@ def accepted_auth(rng, n):
             "pad": True, "body": ""}
 
 
+def non_auth_req(rng, n):
+    while True:
+        r = req(rng, n)
+        if not (r["m"] == "POST" and r["h"] == "hysteria" and r["t"] in ("/auth", "/auth?x=1", "/%61uth")):
+            return r
+
+
+def gate_case(rng, masq, good_first, idx):
+    """an auth request held inside Authenticate; what arrives on the connection while the authenticator is undecided"""
+    cfg = {"udp": rng.random() < 0.8, "masq": masq, "ignbw": rng.random() < 0.3, "maxtx": rng.choice([0, 65536]),
+           "maxrx": rng.choice([0, 65536, 250000])}
+    pre = [req(rng, j) for j in range(rng.randint(0, 3))]
+    first = {"m": "POST", "h": "hysteria", "t": "/auth", "auth": ("good" if good_first else "bad") + "-hold-c0-%d" % idx, "hasa": True,
+             "ccrx": rng.choice(CCRX_OK), "hasrx": True, "pad": rng.random() < 0.5, "body": ""}
+    win = []
+    creds = ["junk-c0-w%d" % j for j in range(4)] + ["bad-c0-w9", "x good-c0-w8"]
+    rng.shuffle(creds)
+    nj = rng.randint(2, 3)
+    for j in range(nj):
+        cred = creds[j]
+        if j == 1 and rng.random() < 0.4:
+            cred = "good-c0-w7"              # would be accepted - when its turn comes, after the held one has been decided
+        a = {"m": "POST", "h": "hysteria", "t": rng.choice(["/auth", "/auth", "/auth?x=1", "/%61uth"]), "auth": cred, "hasa": True,
+             "ccrx": rng.choice(CCRX_OK), "hasrx": rng.random() < 0.7, "pad": rng.random() < 0.3, "body": ""}
+        if not a["hasrx"]:
+            a["ccrx"] = ""
+        win.append({"a": "auth", "req": a})
+    if rng.random() < 0.4:
+        win.append({"a": "auth", "req": {"m": "POST", "h": "hysteria", "t": "/auth", "auth": "", "hasa": False, "ccrx": "", "hasrx": False,
+                                         "pad": False, "body": ""}})
+    for j in range(rng.randint(3, 5)):
+        win.append({"a": "req", "req": non_auth_req(rng, 50 + j)})
+    for j in range(rng.randint(1, 2)):
+        win.append({"a": "tcp", "ft": 0x401, "addr": "c0-w%d-%s:80" % (j, rng.choice(["echo", "echo", "fail"]))})
+    if rng.random() < 0.5:
+        win.append({"a": "tcp", "ft": rng.choice([0x400, 0x402, 0x21, -1]), "addr": "c0-wx-echo:80"})
+    win.append({"a": "udp", "addr": "c0-wu:53"})
+    rng.shuffle(win)
+    post = [{"a": "tcp", "ft": 0x401, "addr": "c0-p0-echo:80"}]
+    for j in range(rng.randint(2, 4)):
+        post.append({"a": "req", "req": req(rng, 100 + j)})
+    post.append({"a": "udp", "addr": "c0-pu:53"})
+    rng.shuffle(post)
+    return {"k": "gate", "cfg": cfg, "reqs": pre, "first": first, "win": win, "post": post, "probe": True}
+
+
 def gen(rng, tier):
     scale = 1 if tier == "quick" else 16
     cases = []
     i = 0
+    for rep in range(2 * scale):
+        for masq in (0, 1, 2):
+            cases.append(gate_case(rng, masq, (rep + masq) % 2 == 0, len(cases)))
     for rep in range(4 * scale):
         for masq in (0, 1, 2):
             cfg = {"udp": rng.random() < 0.8, "masq": masq, "ignbw": rng.random() < 0.3, "maxtx": rng.choice([0, 65536]),
@@ -88,7 +143,8 @@ def to_coq(c, o):
     if not o.get("log"):
         return None
     cfg = c["cfg"]
-    ev, table = c01lib.log_to_events(o["log"])
+    gate = c["k"] == "gate"
+    ev, table = c01lib.log_to_events(o["log"], conc=gate)
     rs = []
     for r in o.get("rs") or []:
         if r.get("skip"):
@@ -102,7 +158,7 @@ def to_coq(c, o):
             c01lib.req_term(e, 0), "true" if r["was"] else "false", "true" if r["called"] else "false", r.get("crx") or "0",
             "true" if r["acc"] else "false", padn, c01lib.resp_term(r["st"], r["hdr"], r["body"]),
             c01lib.resp_term(r["ost"], r["ohdr"], r["obody"])))
-    return "CConn %s %s\n [%s]\n [%s]\n [%s]" % (c01lib.cfg_term(cfg), "true" if cfg["masq"] != 0 else "false",
+    return "%s %s %s\n [%s]\n [%s]\n [%s]" % ("CGate" if gate else "CConn", c01lib.cfg_term(cfg), "true" if cfg["masq"] != 0 else "false",
                                                 ";\n  ".join(table), ";\n  ".join(ev), ";\n  ".join(rs))
 
 
@@ -117,11 +173,28 @@ def req_class(r):
 
 
 def klass(c, o):
+    if c["k"] == "gate":
+        return "gate(held auth %s)/masq=%d" % ("accepted" if c["first"]["auth"].startswith("good") else "rejected", c["cfg"]["masq"])
     return "masq=%d/%s" % (c["cfg"]["masq"], "accepted-midway" if o.get("authed") else "never-accepted")
 
 
 def features(c, o):
     f = set(req_class(r) + ("/after-auth" if r["was"] else "") for r in o.get("rs") or [])
+    if c["k"] == "gate":
+        held = False
+        for x in o.get("log") or []:
+            if x["k"] == "window":
+                held = True
+            elif x["k"] == "release":
+                held = False
+            elif held and x["k"] == "req" and not x.get("bar"):
+                f.add("while-authenticator-undecided:" + ("auth-request" if x.get("af") else "other-request"))
+            elif held and x["k"] == "resp" and not x.get("bar"):
+                f.add("while-authenticator-undecided:response")
+            elif held and x["k"] == "stream":
+                f.add("while-authenticator-undecided:stream")
+            elif held and x["k"] == "dgram":
+                f.add("while-authenticator-undecided:datagram")
     if o.get("stream") is not None:
         f.add("probe-stream:" + ("reply" if o.get("streamn") else "no-reply"))
         f.add("probe-datagram:" + ("reply" if o.get("dreply") else "no-reply"))
